@@ -269,32 +269,45 @@ def _run_obligations(ob: Obligations, repo_root: str, static: dict, tier: str, s
             if k not in holder:
                 raise Undecided(f"depends on a failed obligation ({k} unavailable)")
 
+    def matrix_contract(sequence, Config, extra):
+        """The adapter must turn whatever pulser packs into trajectory.interaction_matrix into the
+        n x n matrix the backends index by qubit: n x n as is, or the first of k packed n x n
+        matrices (pulser >= 1.9 documents (1,N,N), and (2,N,N) = (C3, C6) in XY mode)."""
+        from emu_base import PulserData
+        cfg = Config(dt=10, observables=[pulser.backend.BitStrings(evaluation_times=[1.0])], log_level=100, **extra)
+        pdx = PulserData(sequence=sequence, config=cfg, dt=cfg.dt)
+        raw = [s.trajectory.interaction_matrix.as_tensor() for s in pdx.hamiltonian.noisy_samples]
+        shapes = sorted({tuple(m.shape) for m in raw})
+        try:
+            sds = list(pdx.get_sequences())
+        except Exception as e:
+            raise type(e)(f"{e} [pulser trajectory.interaction_matrix.as_tensor() has shape {shapes}, "
+                          f"PulserData.get_sequences indexes it as ({N}, {N})]") from e
+        for sd, m in zip(sds, raw):
+            got = sd.interaction_matrix(sd.target_times[-1])
+            check(tuple(got.shape) == (N, N),
+                  f"SequenceData.interaction_matrix(t) has shape {tuple(got.shape)}, expected ({N}, {N}); pulser's "
+                  f"trajectory.interaction_matrix.as_tensor() has shape {tuple(m.shape)}")
+            ref = m if m.dim() == 2 else m[0]
+            check(torch.allclose(got, ref.to(got.dtype)), "adapter matrix differs from pulser's (first packed) matrix")
+            early = sd.interaction_matrix(0.0)
+            check(tuple(early.shape) == (N, N), f"masked matrix has shape {tuple(early.shape)}")
+        return f"pulser shape(s) {shapes} -> ({N}, {N})"
+
     def _c_matrix():
-        need("samples")
-        for s in holder["samples"]:
-            m = s.trajectory.interaction_matrix.as_tensor()
-            check(isinstance(m, torch.Tensor), f"as_tensor() returned {type(m).__name__}")
-            check(tuple(m.shape) == (N, N),
-                  f"samples.trajectory.interaction_matrix.as_tensor() has shape {tuple(m.shape)}, "
-                  f"the adapter indexes it as ({N}, {N}) [rows/columns per qubit]")
-    ob.run("smoke/contract:trajectory-interaction-matrix-is-nxn", _c_matrix,
-           what="samples.trajectory.interaction_matrix.as_tensor() is an n x n torch tensor",
+        from emu_sv import SVConfig
+        return matrix_contract(seq, SVConfig, {"gpu": False})
+    ob.run("smoke/contract:interaction-matrix-from-trajectory", _c_matrix,
+           what="PulserData.get_sequences turns samples.trajectory.interaction_matrix into the n x n matrix the backends index",
            where="emu_base/pulser_adapter.py:PulserData.get_sequences")
 
     seq_xy = build_sequence(N, "XY")
 
     def _c_matrix_xy():
-        from emu_base import PulserData
         from emu_mps import MPSConfig
-        cfg = MPSConfig(dt=10, observables=[pulser.backend.BitStrings(evaluation_times=[1.0])],
-                        log_level=100, num_gpus_to_use=0)
-        pdx = PulserData(sequence=seq_xy, config=cfg, dt=cfg.dt)
-        for s in pdx.hamiltonian.noisy_samples:
-            sh = tuple(s.trajectory.interaction_matrix.as_tensor().shape)
-            check(sh == (N, N), f"XY mode: samples.trajectory.interaction_matrix.as_tensor() has shape {sh}, "
-                                f"the adapter indexes it as ({N}, {N})")
-    ob.run("smoke/contract:xy-trajectory-interaction-matrix-is-nxn", _c_matrix_xy,
-           what="XY mode: samples.trajectory.interaction_matrix.as_tensor() is an n x n torch tensor",
+        return matrix_contract(seq_xy, MPSConfig, {"num_gpus_to_use": 0})
+    ob.run("smoke/contract:xy-interaction-matrix-from-trajectory", _c_matrix_xy,
+           what="same in XY mode with an SLM mask (masked rows/columns are indexed by qubit)",
            where="emu_base/pulser_adapter.py:PulserData.get_sequences")
 
     def _c_nested():
@@ -341,12 +354,9 @@ def _run_obligations(ob: Obligations, repo_root: str, static: dict, tier: str, s
             T = len(sd.target_times)
             for nm in ("omega", "delta", "phi"):
                 check(tuple(getattr(sd, nm).shape) == (T - 1, N), f"{nm}.shape={tuple(getattr(sd, nm).shape)}")
-            for t in (0.0, sd.target_times[-1]):
-                sh = tuple(sd.interaction_matrix(t).shape)
-                check(sh == (N, N), f"SequenceData.interaction_matrix({t}) has shape {sh}, expected ({N}, {N})")
             check(len(sd.qubit_ids) == N and len(sd.bad_atoms) == N, "qubit_ids/bad_atoms length")
     ob.run("smoke/contract:sequence-data-shapes", _c_seqdata,
-           what="every SequenceData from PulserData.get_sequences() has (T-1) x n drives and an n x n interaction matrix",
+           what="every SequenceData from PulserData.get_sequences() has (T-1) x n drives, n qubit ids and n bad-atom flags",
            where="emu_base/pulser_adapter.py:PulserData.get_sequences")
 
     def seqdata_nxn():
@@ -358,7 +368,7 @@ def _run_obligations(ob: Obligations, repo_root: str, static: dict, tier: str, s
         if tuple(sd.interaction_matrix(0.0).shape) == (N, N):
             return sd, ""
         orig = sd.interaction_matrix
-        return (dataclasses.replace(sd, interaction_matrix=lambda t: orig(t).reshape(N, N)),
+        return (dataclasses.replace(sd, interaction_matrix=lambda t: orig(t)[0]),
                 " (harness reshaped the interaction matrix to n x n)")
 
     def _impl_mps():
@@ -415,14 +425,14 @@ def _run_obligations(ob: Obligations, repo_root: str, static: dict, tier: str, s
            where="emu_sv/sv_backend.py:SVBackend.run")
 
     def noisy(pkg):
-        nm = pulser.NoiseModel(relaxation_rate=0.1, state_prep_error=0.1)
+        nm = pulser.NoiseModel(relaxation_rate=0.1, amp_sigma=0.05)
         simple = [o for o in built[pkg] if type(o).__name__ in ("BitStrings", "Occupation")]
         return e2e(pkg, seq, noise=nm, n_traj=2, observables=simple or None)
     ob.run("smoke/e2e-noisy:emu_mps:MPSBackend", lambda: noisy("emu_mps"),
-           what="noisy run (relaxation + SPAM, 2 trajectories): jump operators, Results.aggregate",
+           what="noisy run (relaxation + amplitude noise, 2 trajectories): jump operators, Results.aggregate",
            where="emu_mps/mps_backend.py:MPSBackend.run")
     ob.run("smoke/e2e-noisy:emu_sv:SVBackend", lambda: noisy("emu_sv"),
-           what="noisy run (relaxation + SPAM, 2 trajectories): density matrix, Results.aggregate",
+           what="noisy run (relaxation + amplitude noise, 2 trajectories): density matrix, Results.aggregate",
            where="emu_sv/sv_backend.py:SVBackend.run")
 
     def xy(pkg):
